@@ -147,6 +147,22 @@ def gen(rng, n_manual, n_auto):
             c["faults"] = {str(rng.randint(1, 3)): [["F0L2", str(rng.choice([F(3), F(4)]))]]}
             cases.append(c)
             continue
+        if j % 5 == 3:
+            # targeted: a fault on a line without sensor is being sectioned by hand; meanwhile the main controller has a software
+            # failure (cured by a new signal): its recovery time is handed to the sub-controllers with an open breaker, which keep
+            # the larger value (model op `ctl swfail`)
+            if F(c["spec"]["ctrl"]["T"]) == 0:
+                c["spec"]["ctrl"]["T"] = "1"
+            T = F(c["spec"]["ctrl"]["T"]); dt = F(c["dt"])
+            c["spec"]["ctrl"]["new_signal"] = str(rng.choice([F(1, 1800), dt * 2, T + dt]))
+            ps = net.build(c["spec"])
+            names = [l.name for l in ps.lines if not l.is_backup]
+            a = rng.choice(names)
+            c["spec"]["ctrl"]["nodev"] = [f"S{a}"]
+            k1 = rng.randint(1, 3)
+            c["faults"] = {str(k1): [[a, str(rng.choice([F(3), F(4)]))]], str(k1 + rng.randint(1, max(1, math.ceil(T / dt) - 1))): [["C1", "sw"]]}
+            cases.append(c)
+            continue
         if j % 5 == 2:
             # targeted: a first fault on a line without sensor (sectioned by hand, the breaker stays open for the manual time),
             # a second fault on another line while that time is running
